@@ -26,10 +26,15 @@ type Frame struct {
 	Chunk int    `json:"chunk"`         // netsim.ChunkLikeLink mode
 	Rel   bool   `json:"rel"`           // TCP seq/ack are relative to the live connection (patched at run time)
 	Rep   int    `json:"rep,omitempty"` // the frame is injected 1+Rep times back to back (floods)
+	K     string `json:"k,omitempty"`   // template the frame was mutated from (informational)
 }
 
 type Case struct {
 	Frames []Frame `json:"frames"`
+	// LingerMs: wait this long between the barrage and the probes, so that what
+	// the frames did to a connection with data in flight meets its timers (the
+	// live connection has unacknowledged data outstanding: retransmission timer)
+	LingerMs int `json:"linger_ms,omitempty"`
 }
 
 // World is one stack with live targets.
@@ -58,6 +63,9 @@ func NewWorld() (*World, error) {
 		return nil, fmt.Errorf("establish: %v", err)
 	}
 	w.L, w.Conn, w.Peer = l, s, p
+	// data in flight on the live connection: the scripted peer never acknowledges
+	// it, so the connection keeps a retransmission timer running
+	s.EP.Write(tcpip.SlicePayload(bytes.Repeat([]byte("unacknowledged "), 40)), tcpip.WriteOptions{})
 	ub, e := netsim.NewSock(env.Stack, udp.ProtocolNumber, 0x86dd) // dual-stack socket
 	if e != nil {
 		return nil, fmt.Errorf("udp: %v", e)
